@@ -56,7 +56,7 @@ def header_combos(full):
 
 
 DETAIL = {"@type": T + "Header", "name": "detail-name", "value": ["d1", "d2"]}
-DETAIL2 = {"@type": "type.googleapis.com/google.protobuf.StringValue", "value": "second detail"}
+DETAIL2 = {"@type": T + "Error", "code": "CODE_ABORTED", "message": "second detail"}
 
 
 def errors(full):
@@ -197,10 +197,23 @@ def write_suites(work, level, tag="gen"):
     d = os.path.join(work, tag + "-suites")
     os.makedirs(d, exist_ok=True)
     for key, cases in suites.items():
-        p = os.path.join(d, "gen_%s.json" % key.replace("-", "_"))
+        p = os.path.join(d, "gen_%s.yaml" % key.replace("-", "_"))
         json.dump({"name": "Gen " + key, "testCases": cases}, open(p, "w"))
         files.append(p)
     return files, n, suites
+
+
+def shape_class(shape):
+    """Groups shapes that fail for one and the same documented reason under one key."""
+    m = re.search(r"bidi-full/n(\d)/r(\d)-(noerr|err)", shape)
+    if m and int(m.group(2)) < int(m.group(1)):
+        peer = "reference-peers"
+        if "(grpc server impl)" in shape:
+            peer = "grpc-server"
+        elif "(grpc client impl)" in shape:
+            peer = "grpc-client"
+        return "bidi-full:fewer-responses-than-requests:%s:%s" % (m.group(3), peer)
+    return shape
 
 
 def shape_of(name):
@@ -269,7 +282,7 @@ def run_one(rep, bindir, repo, conf, level, mode, impl, extra):
         remaining = still
     by_shape = {}
     for fn in remaining:
-        by_shape.setdefault(shape_of(fn), []).append(fn)
+        by_shape.setdefault(shape_class(shape_of(fn)), []).append(fn)
     for shape, names in sorted(by_shape.items())[:25]:
         fn = names[0]
         m = re.search(r"^FAILED: " + re.escape(fn) + r".*?(?=^FAILED: |^INFO: |^Total cases|\Z)", out, flags=re.M | re.S)
